@@ -236,6 +236,11 @@ class Histogram1D(ObjectWithBinning, HistogramBase):
         underflow = np.nan
         overflow = np.nan
         keep_missed = False
+        if isinstance(index, np.integer) or (
+            isinstance(index, np.ndarray) and index.ndim == 0 and index.dtype.kind in "iu"
+        ):
+            # Numpy integers (argmax, searchsorted...) are integer indices too
+            index = int(index)
         if isinstance(index, int):
             return self.bins[index], self.frequencies[index]
         if isinstance(index, np.ndarray):
